@@ -63,7 +63,7 @@ theorem readZone_of_mapM : ∀ (lines : List Str) (rs : List (Str × Int)) (acc 
 theorem zone_line_format' (chain : Str) (num : Int) :
     Gen.zone_line chain num =
       .ok ("zone ".toList ++ chain ++ intStr num ++ ['-'] ++ chain ++ intStr num ++ ['\n']) := by
-  simp [Gen.zone_line, pure, Except.pure]
+  rw [Proofs.Zone.zone_line_eq]; simp
 
 /-- a whole written zone is read back residue by residue (`Props.C09.read_write_zone_file`, from `Proofs.Zone.read_write_zone`) -/
 theorem read_write_zone_file' (zs : List (Char × Int)) (h : ∀ z ∈ zs, z.1 ≠ '-' ∧ Py.isSpace z.1 = false) :
